@@ -667,3 +667,67 @@ func HarnessC06Traverse() {
 		verifAssert(len(res) == len(rels), "C06: the rewrite traversal does not return one candidate per relation")
 	}
 }
+
+// HarnessC03SQLFaults (Lemma PF, feeds C03): when a database operation issued
+// by a read call of the SQL layer fails, the call returns an error - it never
+// turns the failure into an answer. Together with C03 on the storage
+// specification (where the k-th interface call fails) this covers failures of
+// the individual SQL statements behind one interface call.
+func HarnessC03SQLFaults() {
+	K := verifParam("K")
+	db = &dbState{rows: dbSymRows(K)}
+	dbInserted = nil
+	dbQueries = map[*pop.Query]*dbQuery{}
+	p := newModelPersister(0)
+	tr := NewTraverser(p)
+	ctx := context.Background()
+	dbStrict = verifChoice(2) == 1
+	db.failAt = 1 + verifChoice(3)
+	var err error
+	switch verifChoice(4) {
+	case 0:
+		verifTag("GetRelationTuples")
+		_, _, err = p.GetRelationTuples(ctx, pickQuery(false).value())
+	case 1:
+		verifTag("ExistsRelationTuples")
+		_, err = p.ExistsRelationTuples(ctx, pickQuery(false).value())
+	case 2:
+		verifTag("TraverseSubjectSetExpansion")
+		_, err = tr.TraverseSubjectSetExpansion(ctx, pickTuple(false).value())
+	default:
+		verifTag("TraverseSubjectSetRewrite")
+		_, err = tr.TraverseSubjectSetRewrite(ctx, pickTuple(false).value(), []string{"r", "s"})
+	}
+	verifReach("c03.sql.returned")
+	if db.failed > 0 {
+		verifReach("c03.sql.fault-hit")
+		verifAssert(err != nil, "C03: a read call of the SQL layer returns without error although one of its database operations failed")
+	} else {
+		verifAssert(err == nil, "C03: a read call of the SQL layer fails although no database operation failed")
+	}
+}
+
+// HarnessC13PageSize (feeds C13): the list handlers hand the client's page size
+// (any non-negative number) to GetRelationTuples, where it goes into LIMIT and
+// into slice arithmetic: no page size makes the call panic, and a page never
+// holds more rows than asked for.
+func HarnessC13PageSize() {
+	K := verifParam("K")
+	db = &dbState{rows: dbSymRows(K)}
+	dbInserted = nil
+	dbQueries = map[*pop.Query]*dbQuery{}
+	p := newModelPersister(0)
+	ctx := context.Background()
+	size := verifInt()
+	verifAssume(verifNot(verifLess(size, 0)))
+	q := pickQuery(true)
+	res, _, err := p.GetRelationTuples(ctx, q.value(), x.WithSize(size))
+	verifReach("c13.sql.list")
+	if err != nil {
+		verifFail("C13: GetRelationTuples fails on a non-negative page size: " + err.Error())
+		return
+	}
+	if verifConcretizeBool(verifAnd(verifLess(0, size), verifLess(size, K+1))) {
+		verifAssert(verifNot(verifLess(size, len(res))), "C13: a page holds more rows than the page size")
+	}
+}
